@@ -470,4 +470,91 @@ theorem itemsAux_spec (f : Nat) (pos : Bytes) :
         | cons b r => rw [hm] at ih2; exact ⟨hcl.1, ih2⟩
 
 
+/-! ### the iteration is never cut short -/
+
+theorem dropWhile_nil_all (p : UInt8 → Bool) (l : Bytes) (h : l.dropWhile p = []) : ∀ c ∈ l, p c = true := by
+  induction l with
+  | nil => simp
+  | cons x xs ih =>
+    by_cases hx : p x = true
+    · simp only [List.dropWhile_cons, hx, ↓reduceIte] at h
+      intro c hc
+      simp only [List.mem_cons] at hc
+      rcases hc with rfl | hc
+      · exact hx
+      · exact ih h c hc
+    · simp [List.dropWhile_cons, hx] at h
+
+theorem space_is_leadDelim (c : UInt8) (h : isSpaceC c = true) : isLeadDelim c = true := by
+  have h2 := forall_octet (fun c => !isSpaceC c || isLeadDelim c) (by decide +kernel) c
+  simpa [h] using h2
+
+/-- `strListGetItem` returns 0 only when nothing but white space and commas is left: an element cannot end the list early
+(before the repair of `delim[2]` an element of VT/FF did) -/
+theorem getItem_none (pos : Bytes) (h : getItem pos = none) : ∀ c ∈ pos, isLeadDelim c = true := by
+  unfold getItem at h
+  simp only at h
+  split at h
+  · rename_i hz
+    cases hitem : List.dropWhile isLeadDelim pos with
+    | nil => exact dropWhile_nil_all _ _ hitem
+    | cons c r =>
+      exfalso
+      rw [hitem] at hz
+      have hc : isLeadDelim c = false := dropWhile_head isLeadDelim pos c (by rw [hitem]; rfl)
+      have hns : isSpaceC c = false := by
+        cases hs : isSpaceC c with
+        | false => rfl
+        | true => rw [space_is_leadDelim c hs] at hc; exact absurd hc (by simp)
+      have h44 : c ≠ 44 := by intro hh; subst hh; revert hc; decide
+      have hn : ∃ m, scanLen false false (c :: r) = m + 1 := by
+        simp only [scanLen, h44, ↓reduceIte]
+        split
+        · exact ⟨_, Nat.add_comm _ _⟩
+        · exact ⟨_, Nat.add_comm _ _⟩
+      obtain ⟨m, hm⟩ := hn
+      rw [hm, List.take_succ_cons] at hz
+      simp [rtrimLen, hns] at hz
+  · simp at h
+
+/-- … so the items of a value are all of its elements: after the last item only separators are left -/
+theorem itemsAux_complete (f : Nat) (pos : Bytes) (hf : pos.length + 1 ≤ f) :
+    ∃ tail, (∀ c ∈ tail, isLeadDelim c = true) ∧
+      (itemsAux f pos = [] → tail = pos) ∧
+      (∀ it ∈ (itemsAux f pos).getLast?, ∃ k, tail = it.1.drop k ∧ it.2 ≤ k) := by
+  induction f generalizing pos with
+  | zero => omega
+  | succ f ih =>
+    simp only [itemsAux]
+    cases hg : getItem pos with
+    | none => exact ⟨pos, getItem_none pos hg, fun _ => rfl, by simp⟩
+    | some r =>
+      obtain ⟨item, ilen, pos'⟩ := r
+      obtain ⟨_, hle, hne, hlt, _⟩ := getItem_spec pos item pos' ilen hg
+      obtain ⟨tail, ht1, ht2, ht3⟩ := ih pos' (by omega)
+      refine ⟨tail, ht1, by simp, ?_⟩
+      intro it hit
+      cases hrest : itemsAux f pos' with
+      | nil =>
+        simp only [hrest, List.getLast?_singleton, Option.mem_def, Option.some.injEq] at hit
+        subst hit
+        have := ht2 hrest
+        -- pos' = item.drop n with n ≥ ilen
+        unfold getItem at hg
+        simp only at hg
+        split at hg
+        · simp at hg
+        · simp only [Option.some.injEq, Prod.mk.injEq] at hg
+          obtain ⟨h1, h2, h3⟩ := hg
+          refine ⟨scanLen false false item, ?_, ?_⟩
+          · rw [this, ← h3, h1]
+          · rw [← h2, ← h1]
+            have := rtrimLen_le (List.take (scanLen false false (List.dropWhile isLeadDelim pos)) (List.dropWhile isLeadDelim pos))
+            simp only [List.length_take] at this
+            omega
+      | cons b r' =>
+        rw [hrest] at ht3
+        simp only [hrest, List.getLast?_cons_cons] at hit
+        exact ht3 it hit
+
 end SquidModel.Cc
